@@ -438,12 +438,12 @@ func c17Run(c *Ctx) {
 func init() {
 	register(&CheckDef{
 		ID:   "C17",
-		Rule: "programs: every built-in (17) x 0-2 arguments over every combination of 16 argument kinds (nil, boolean, numbers, non-numeric string, arrays, objects, user function, built-in) and seeded samples with 3-4 arguments, with prints before and after (value-or-fault, category, line, nothing after a fault, no built-in after a fault: hook event monitor); numeric arguments for abs/sqrt/sin/cos/tan/round over 46 boundary values and seeded random doubles by bit pattern in batches of 80 (abs, sqrt, round exact — sqrt additionally checked against exact squares of the neighbouring midpoints, round against exact big-rational half-away-from-zero; sin/cos/tan within 2 ulp of the platform library); ঘাত(a,b) and a ** b printed side by side and compared byte for byte; min/max over every arrangement of up to 3 (quick) / 4 (thorough) distinct entries of a 10-value pool in list and array call forms; min/max misuse; ক্লক() against a causal wall-clock bracket taken around the child process. Non-trivial = distinct decided program.",
+		Rule: "programs: built-ins composed with each other in argument positions (seeded, evaluated repeatedly in one run); every built-in (17) x 0-2 arguments over every combination of 18 argument kinds (nil, boolean, numbers, non-numeric string, text that starts like a number, arrays, objects, user function, built-in) and seeded samples with 3-4 arguments, with prints before and after (value-or-fault, category, line, nothing after a fault, no built-in after a fault: hook event monitor); numeric arguments for abs/sqrt/sin/cos/tan/round over 46 boundary values and seeded random doubles by bit pattern in batches of 80 (abs, sqrt, round exact — sqrt additionally checked against exact squares of the neighbouring midpoints, round against exact big-rational half-away-from-zero; sin/cos/tan within 2 ulp of the platform library); ঘাত(a,b) and a ** b printed side by side and compared byte for byte; min/max over every arrangement of up to 3 (quick) / 4 (thorough) distinct entries of a 10-value pool in list and array call forms; min/max misuse; ক্লক() against a causal wall-clock bracket taken around the child process. Non-trivial = distinct decided program.",
 		Assumptions: []string{"sin/cos/tan/pow are compared with Go's math package on the same platform within 2 ulp ('to the accuracy of the platform's math library')", "numeric-looking strings as numeric arguments and NaN / mixed signed zeros in min/max are out of domain", "the clock bracket has 2 s slack; a clock step during the run would make that case wrong (not observed)"},
 		Run:         c17Run,
 		Judge:       c17Judge,
 		MustCount: func(c *Ctx) []string {
-			out := []string{"outcome:value", "outcome:fault", "results:abs", "results:sqrt", "results:sin", "results:cos", "results:tan", "results:round", "results:pow", "gen:min-max-permutations", "clock_in_bracket", "cli_runs", "fault:Arity", "fault:BuiltinFailure"}
+			out := []string{"outcome:value", "outcome:fault", "results:abs", "results:sqrt", "results:sin", "results:cos", "results:tan", "results:round", "results:pow", "gen:min-max-permutations", "gen:nested-builtins", "clock_in_bracket", "cli_runs", "fault:Arity", "fault:BuiltinFailure"}
 			return out
 		},
 	})
